@@ -22,10 +22,10 @@ pub const SPECS: &[PropSpec] = &[
     PropSpec { id: "C15", level: "exploration", quick_runs: 60_000, thorough_runs: 1_500_000,
         rule: "seeded histories under all policies; per call (flush-per-call policies) or per flush point (others) the sum of wal_bytes_written is compared with the bytes of the Write effects on WAL files, and the running sum with the file-system write cursor. Non-trivial: history wrote padding, rolled over, or GC wrote position records. Distinct: history signature.",
         assumptions: &["bytes written by the GC inside open are not attributed to any call"] },
-    PropSpec { id: "C16", level: "exploration", quick_runs: 60_000, thorough_runs: 1_500_000,
-        rule: "seeded histories; after every call N+B <= memory_used_bytes <= N+B+64R, used <= allocated, truncate releases between b and b+64n, names-only baseline when all queues are empty. Non-trivial: history has a truncate evicting part of a queue and a point where all queues are empty. Distinct: history signature.",
+    PropSpec { id: "C16", level: "exploration", quick_runs: 30_000, thorough_runs: 800_000,
+        rule: "seeded histories; after every call N+B <= memory_used_bytes <= N+B+64R, used <= allocated, truncate releases between b and b+64n, names-only baseline when all queues are empty; every fourth run additionally opens 8 damaged copies of the final image (single-frame payload damage, aimed overwrites) and requires the same bounds of the recovered log relative to the state it shows. Non-trivial: history has a truncate evicting part of a queue and a point where all queues are empty. Distinct: history signature.",
         assumptions: &["state invariant monitored while simulated histories run; no fault enters this property"] },
-    PropSpec { id: "C17", level: "exploration", quick_runs: 12_000, thorough_runs: 400_000,
+    PropSpec { id: "C17", level: "exploration", quick_runs: 8_000, thorough_runs: 300_000,
         rule: "SimFs directory pre-populated with 1-8 foreign entries (near-miss names, other lengths, non-ASCII digits, non-UTF-8, dirs and symlinks incl. ones named like WAL files, WAL-like content), then roll-over heavy histories; every Open/Read/Create/SetLen/Write/Sync/Unlink effect must name a wal-<20 digits> regular file and foreign entries must stay byte-identical; differential: the same history without the foreign entries must return the same outcomes and states; gaps: every second run renumbers the WAL files of the final image with an order-preserving PRNG map (gaps up to 2^40, first number != 0) and requires the same state after open, a working continuation, and new files numbered after the highest. Non-trivial: foreign file and dir/symlink present while GC deleted a file. Distinct: history signature x foreign name classes.",
         assumptions: &["simulated symlinks dangle; file_type does not follow symlinks (as std::fs::DirEntry::file_type)"] },
 ];
@@ -130,6 +130,18 @@ pub fn run_hist(prop: &str, seed: u64, index: usize, _tier: Tier) -> RunReport {
         rep.found.push(Found { prop: prop.to_string(), clause: f.clause.clone(), detail: f.detail.clone(), case: c, fault: Fault::None });
         break;
     }
+    if (prop == "C01" || prop == "C17") && index % 400 == 0 {
+        // SimFs fidelity: the same history with every fs call mirrored on the real file system
+        let mism = crate::twin::validate(&case, seed);
+        rep.count("simfs_validated_runs", 1);
+        for m in mism {
+            rep.harness_errors.push(format!("SimFs disagrees with the real file system: {m}"));
+        }
+    }
+    if prop == "C16" && d.conformance_ok() && rep.found.is_empty() && seed % 4 == 0 {
+        // the same invariant on logs recovered from damaged and crashed images
+        c16_recovered(prop, seed, &case, &mut rep);
+    }
     if index < 3 {
         rep.sample = Some(sample_of(&case, &d, if rep.found.is_empty() { "held" } else { "VIOLATION" }));
     }
@@ -139,4 +151,36 @@ pub fn run_hist(prop: &str, seed: u64, index: usize, _tier: Tier) -> RunReport {
     rep.count("fault_short_read_fired", fired.short_read);
     rep.count("fault_eintr_fired", fired.eintr);
     rep
+}
+
+/// C16 on recovered logs: damaged images (frame payload damage, aimed overwrites) and crash images.
+fn c16_recovered(prop: &str, seed: u64, case: &Case, rep: &mut RunReport) {
+    use crate::damage::{aimed_overwrite, apply_damage, base_image, frame_payload_damage, judge};
+    use crate::fault::DamageOp;
+    let Some((d, image, parsed)) = base_image(case) else { return };
+    if !parsed.problems.is_empty() {
+        return;
+    }
+    let mut rng = crate::prng::Rng::new(crate::prng::mix(&[seed, 0xC16]));
+    let policy = d.world.policy;
+    for k in 0..8 {
+        let ops: Vec<DamageOp> = if k % 2 == 0 && !parsed.frames.is_empty() {
+            let fi = rng.usize_below(parsed.frames.len());
+            match frame_payload_damage(&parsed, fi, rng.below(6) as u8, &mut rng) {
+                Some(op) => vec![op],
+                None => continue,
+            }
+        } else {
+            (0..1 + rng.usize_below(2)).map(|_| aimed_overwrite(&parsed, &image, &mut rng)).collect()
+        };
+        let damaged = apply_damage(&image, &ops);
+        let ev = judge(prop, Some(&d), &d.names, policy, &case.knobs, &damaged, None, &format!("damage {:?}", ops));
+        rep.evaluations += 1;
+        rep.count("recovered_logs_checked_after_damage", ev.open_ok as u64);
+        for f in ev.failures.iter().filter(|f| f.prop == prop) {
+            if rep.found.is_empty() {
+                rep.found.push(Found { prop: prop.to_string(), clause: f.clause.clone(), detail: f.detail.clone(), case: case.clone(), fault: Fault::Damage { ops: ops.clone() } });
+            }
+        }
+    }
 }
